@@ -27,3 +27,4 @@ def run(chk, program, tier):
     K.closed_final(chk, program)
     K.notify(chk, program)
     K.close_does(chk, program)
+    K.close_order(chk, program)
